@@ -37,6 +37,8 @@ func init() {
 			{ID: "C06-R14", Title: "contexts made from nothing are an explicit table", Floor: 6, Run: detachedContextsAreEnumerated},
 			{ID: "C06-R15", Title: "http servers follow the evaluation (request contexts, lifetime)", Floor: 2, Run: httpServersFollowTheEvaluation},
 			{ID: "C06-R16", Title: "evaluations end with the context's error", Floor: 2, Run: evaluationsEndWithTheContextError},
+			{ID: "C06-R17", Title: "threads are started by the VM", Floor: 1, Run: threadsAreStartedByTheVM},
+			{ID: "C06-R18", Title: "derived contexts come from the context given", Floor: 1, Run: derivedContextsComeFromTheParameter},
 		},
 	})
 }
